@@ -148,6 +148,20 @@ def check_front_end(repo: Repo, where: str, thorough: bool = False) -> tuple[int
             front(tail)
         except ModelRaise as err:
             bad.append(("a documentation comment that ends the text is refused", f"{tail!r}: {err}"))
+    # block comments nest, and every opener needs its own closer (block_comment = "/*" ~ (block_comment | !"*/" ~ ANY)* ~ "*/")
+    for text, valid in (("r = { a } /* x /* y */ z */", True), ("r = { a } /**/", True), ("r = { a } /* * / */", True), ("/* c */ r = { a }", True), ("r = { a /* in /* side */ */ }", True),
+                        ("r = { a } /* x /* y */", False), ("r = { a } /* disabled: /* old */ s = { b } /* end */ t = { a }", False), ("r = { a } /* x", False), ("r = { a } */", False)):
+        n += 1
+        try:
+            rules = front(text)
+        except ModelRaise as err:
+            if valid or "PestGrammar" not in str(err).split(":")[0]:
+                bad.append(("a grammar text with a well-formed block comment is refused" if valid else f"an unterminated block comment ends in {str(err).split(':')[0]}", f"{text!r}: {err}"))
+            continue
+        if not valid:
+            bad.append(("a grammar text with an unterminated block comment is accepted", f"{text!r}: rules {list(rules) if isinstance(rules, dict) else rules!r}"))
+        elif not (isinstance(rules, dict) and list(rules) == ["r"]):
+            bad.append(("a block comment swallows or splits rules", f"{text!r}: rules {list(rules) if isinstance(rules, dict) else rules!r}"))
     # malformed shapes: a syntax error, nothing else
     malformed = ["r = { a ~ }", "r = { ~ a }", "r = { a ~ ~ b }", "r = { a | }", "r = { (a }", "r = { a) }", "r = { }", "r = { #t a }", "r = { PEEK[1.] }", "r = { 'a'.. }", "r = { a{,} }",
                  "r = { a{ } }", "r = a }", "r { a }", "= { a }", "r = { a } }", "r = { \"a }", "r = { ^ a }", "r = { PUSH a }", "r = { PUSH_LITERAL(a) }", "r = { & }"]
